@@ -15,7 +15,7 @@ One graph directory `g/` holds SEVERAL stores, each written by the same `Storage
 store is the flat model's operation (`Storage.step`) on the `view` of that store; the only coupling is the directory:
 `rmdir`-if-empty of `g/` is vetoed while another store or a sub-directory is in it (`busy`), `mkdir(parents=True)` of a
 child creates `g/`, and (only with `climb`, a proposed repair) the clean-up of a child walks up and removes `g/` when
-removing `g/<child>/` emptied it.
+removing `g/<child>/` emptied it (`climb`: the tree as it is since `d82d12e`).
 
 Core Lean only.
 -/
@@ -87,7 +87,7 @@ def Op.isCrash : Op → Bool
   | _ => false
 
 /-- write the result of a flat operation on store `s` back.  `climb`: the clean-up of a child store that removed
-`g/<child>/` goes on to `g/` (proposed repair); without it `g/` stays, empty or not. -/
+`g/<child>/` goes on to `g/` (the tree as it is since `d82d12e`); without it `g/` stays, empty or not. -/
 def Tree.put (climb : Bool) (t : Tree) (s : Store) (op : Op) (fs : FS) : Tree :=
   match s with
   | .main => { t with gdir := fs.dir || t.busy .main, main := fs.files }
@@ -106,10 +106,10 @@ structure TCfg where
   climb : Bool
   deriving DecidableEq, Repr
 
-/-- the tree as it is -/
-def TCfg.current : TCfg := ⟨Cfg.current, false⟩
-/-- ... with the proposed repair: clean-up of a nested store removes the ancestors it emptied -/
-def TCfg.climbing : TCfg := ⟨Cfg.current, true⟩
+/-- before `d82d12e`: the clean-up of a nested store looks at its own directory only -/
+def TCfg.unclimbed : TCfg := ⟨Cfg.current, false⟩
+/-- the tree as it is: the clean-up of a nested store also removes the ancestors' directories it emptied -/
+def TCfg.current : TCfg := ⟨Cfg.current, true⟩
 
 structure TWorld where
   tree : Tree
